@@ -1000,10 +1000,11 @@ impl<'a, 'c> Enc<'a, 'c> {
         if self.over_budget() {
             return 0;
         }
-        match self.rng.below(6) {
+        match self.rng.below(7) {
             0 => 0,
             1 => 1,
             2 => 1u64 << (bits - 1),
+            6 => full,
             3 => self.rng.next_u64() & self.rng.next_u64() & self.rng.next_u64() & full,
             4 => self.rng.below(16),
             _ => 1u64 << self.rng.below(bits as u64),
